@@ -1,13 +1,14 @@
 package main
 
 import (
+	"crypto/x509/pkix"
 	"fmt"
 	"strings"
 )
 
 func init() {
 	checkers["C16"] = checker{
-		rule: "at check time the OpenSSL CLI signs random contents with fresh RSA keys/certificates under every combination of {smime, cms} x {detached, -nodetach} x {S/MIME capabilities, -nosmimecap} x {certificates, -nocerts} plus cms -cades (additional signed attribute); together with the sbsign / sbvarsign artefacts of the repository; each blob is parsed and verified by the library in the sandboxed worker against the signer's certificate (must succeed: completeness on the supported subset, extracted check_accepts) and against four other certificates (must not), the parsed values are compared with the model's parse, and Attributes.Marshal() of the parsed values is compared with SET||attributes-as-in-blob (extracted check_reencode); non-trivial = the model parses the blob; distinct by (blob, certificate) hash",
+		rule: "at check time the OpenSSL CLI signs random contents with fresh RSA keys/certificates under every combination of {smime, cms} x {detached, -nodetach} x {S/MIME capabilities, -nosmimecap} x {certificates, -nocerts} plus cms -cades (additional signed attribute, also with a one-letter issuer) and cms -receipt_request_to (several signed attributes the library does not know), with self-signed and CA-issued signing certificates; together with the sbsign / sbvarsign artefacts of the repository; each blob is parsed and verified by the library in the sandboxed worker against the signer's certificate (must succeed: completeness on the supported subset, extracted check_accepts) and against four other certificates (must not), the parsed values are compared with the model's parse, and Attributes.Marshal() of the parsed values is compared with SET||attributes-as-in-blob (extracted check_reencode); non-trivial = the model parses the blob; distinct by (blob, certificate) hash",
 		run:  runC16,
 	}
 }
@@ -34,7 +35,10 @@ func runC16(c *Ctx) {
 			}
 		}
 	}
-	confs = append(confs, conf{"cms", []string{"-cades"}}, conf{"cms", []string{"-cades", "-nodetach"}})
+	confs = append(confs, conf{"cms", []string{"-cades"}}, conf{"cms", []string{"-cades", "-nodetach"}},
+		// several signed attributes the library does not know, in the order their DER encodings sort
+		conf{"cms", []string{"-receipt_request_to", "a@b.c"}}, conf{"cms", []string{"-receipt_request_to", "a@b.c", "-nodetach"}},
+		conf{"cms", []string{"-cades", "-receipt_request_to", "someone@example.org", "-nosmimecap"}})
 	var seeds []p7Seed
 	if opensslPath() == "" {
 		c.Rep.Extra["openssl_note"] = "openssl CLI not found: only the repository fixtures are checked"
@@ -48,6 +52,14 @@ func runC16(c *Ctx) {
 				}
 				key := rsaKey(bits, (i+r)%2)
 				cert := mintCert(key, genIssuer(rng), genSerial(rng))
+				if rng.Intn(2) == 0 {
+					// a CA-issued signing certificate, as every real producer uses
+					cert = mintLeaf(key, genIssuer(rng), pkix.Name{CommonName: fmt.Sprintf("producer leaf %d", rng.Intn(1000))}, genSerial(rng))
+				}
+				if len(cf.extra) > 0 && cf.extra[0] == "-cades" && r%2 == 1 {
+					// the signing-certificate attribute holds the issuer: its size decides how the attributes sort
+					cert = mintCert(key, pkix.Name{CommonName: "A"}, genSerial(rng))
+				}
 				content := randBytes(rng, 1+rng.Intn(400))
 				b, err := opensslSign(c.Work, cf.tool, key, cert, content, cf.extra...)
 				if err != nil {
